@@ -78,6 +78,17 @@ class _Call:
         return self.v
 
 
+def _loop_sum(n, mx):
+    """a helper as a user would write it: 1 + 2 + .. + n by an oblivious for loop over a secret bound, with the stop <= max check on"""
+    from pysnark.branching import BranchingValues, _range, _endfor
+    __ = BranchingValues()
+    __.s = n * 0
+    for i in _range(n, max=mx, checkstopmax=True, ctx=__):
+        __.s = __.s + i + 1
+    _endfor(ctx=__)
+    return __.s
+
+
 def api_names():
     import pysnark.runtime as rt
     import pysnark.boolean as bo
@@ -94,7 +105,7 @@ def api_names():
     def set_bitlength(n):
         rt.bitlength = n
     import functools
-    return dict(snark=rt.snark, set_bitlength=set_bitlength, _aug=model._aug, functools=functools, _Call=_Call, if_guard=rt.if_guard, igprint=rt.igprint, **hashes, PackBool=pk.PackBool, PackIntMod=pk.PackIntMod, PackList=pk.PackList, PackRepeat=pk.PackRepeat,
+    return dict(snark=rt.snark, set_bitlength=set_bitlength, _loop_sum=_loop_sum, _aug=model._aug, functools=functools, _Call=_Call, if_guard=rt.if_guard, igprint=rt.igprint, **hashes, PackBool=pk.PackBool, PackIntMod=pk.PackIntMod, PackList=pk.PackList, PackRepeat=pk.PackRepeat,
                 PrivVal=rt.PrivVal, PubVal=rt.PubVal, ConstVal=rt.ConstVal, LinComb=rt.LinComb,
                 guarded=rt.guarded, PrivValBool=bo.PrivValBool, PubValBool=bo.PubValBool, LinCombBool=bo.LinCombBool,
                 PrivValFxp=fx.PrivValFxp, PubValFxp=fx.PubValFxp, LinCombFxp=fx.LinCombFxp,
@@ -186,7 +197,7 @@ INT_T = [
     ("ne_ss", "b", "{i} != {i}"), ("ne_sc", "b", "{i} != {K}"), ("ne_cs", "b", "{K} != {i}"),
     ("check_zero", "b", "{i}.check_zero()"), ("check_nonzero", "b", "{i}.check_nonzero()"),
     ("check_positive", "b", "{i}.check_positive()"), ("check_positive_w", "b", "{i}.check_positive({w})"),
-    ("lc_if_else_cc", "i", "({b} + 0).if_else({K}, {K})"), ("lc_if_else_ic", "i", "({b} + 0).if_else({i}, {K})"), ("lc_if_else_ci", "i", "({b} * 1).if_else({K}, {i})"),
+    ("lc_if_else_cc", "i", "({b} + 0).if_else({K}, {K})"), ("lc_if_else_ic", "i", "({b} + 0).if_else({i}, {K})"), ("lc_if_else_ci", "i", "({b} * 1).if_else({K}, {i})"), ("lc_if_else_sel_ii", "i", "{i}.if_else({i}, {i})"), ("lc_if_else_sel_bi", "i", "{i}.if_else({b}, {i})"), ("lc_if_else_sel_same", "i", "(lambda _t: _t.if_else(_t, {i}))({i})"),
     ("ite_i", "i", "if_then_else({b}, {i}, {i})"), ("ite_intcond", "i", "if_then_else({z}, {i}, {i}) + 0"),
     ("ite_list", "i", "if_then_else({b}, [{i}, {i}], [{i}, {K}])[1] + 0"), ("linalg_sub", "i", "sum(vector_sub(scalar_mul({i}, [{i}, {K}]), [{i}, {i}]))"),
     ("lin_comb", "i", "lin_comb([{i}, {K}, {b}], [{i}, {i}, {i}])"), ("ite_ic", "i", "if_then_else({b}, {i}, {K})"),
@@ -242,6 +253,9 @@ FXP_T = [
     ("fconv", "f", "LinCombFxp({i})"),
     ("ite_f", "f", "if_then_else({b}, {f}, {f})"), ("ite_fi", "f", "if_then_else({b}, {f}, {i})"),
     ("ite_if", "f", "if_then_else({b}, {i}, {f})"),
+    # the same wire read twice, once as an integer and once as a raw fixed-point representation
+    ("ite_rawf_i", "f", "(lambda _t: if_then_else({b}, LinCombFxp(_t, False), _t))({i})"),
+    ("ite_i_rawf", "f", "(lambda _t: if_then_else({b}, _t, LinCombFxp(_t, False)))({i})"),
     ("fcheck_pos", "b", "{f}.check_positive()"), ("fcheck_zero", "b", "{f}.check_zero()"),
 ]
 ASSERT_T = [
